@@ -254,6 +254,9 @@ func (c *trCtx) exprAs(e ast.Expr, ty types.Type) string {
 		if r, ok := c.perfNil(e, ty); ok {
 			return r
 		}
+		if r, ok := c.internedNil(e, ty); ok {
+			return r // nil where an interned pointer is expected: the zero value of the struct (trans_units_mapping.go)
+		}
 		switch {
 		case trIsError(ty):
 			return "(none : Option Error)"
@@ -568,6 +571,9 @@ func (c *trCtx) binary(x *ast.BinaryExpr) string {
 		if other != nil {
 			if r, ok := c.nilPtrCompare(other, x.Op); ok {
 				return r
+			}
+			if r, ok := c.regexpNilCompare(other, x.Op); ok {
+				return r // *regexp.Regexp: Option.isNone / isSome (trans_units_mapping.go)
 			}
 			if sel, ok := c.nilableSel(other); ok {
 				if x.Op == token.EQL {
@@ -896,6 +902,9 @@ func (c *trCtx) call(x *ast.CallExpr) string {
 	}
 	if m, _ := c.builderCallInfo(x); m != nil {
 		trFail(x.Pos(), "a call on a table builder object inside an expression is outside the subset (statements and `x := t.AddRow()…` only)")
+	}
+	if r, ok := c.regexpMatchCall(x); ok {
+		return r // re.MatchString(s) on a *regexp.Regexp value (trans_units_mapping.go)
 	}
 	if r, ok := c.regexpCall(x); ok {
 		return r // re.ReplaceAllString on a package-level regular expression of the prelude (trans_units_beancount.go)
